@@ -54,12 +54,13 @@ def get_facts(repo=REPO, verbose=True):
     out = os.path.join(CACHE, "facts-%s.json" % sh)
     t0 = time.time()
     extracted = False
-    with open(os.path.join(CACHE, "extract.lock"), "w") as lk:
+    tdir = os.environ.get("SKV_TARGET_DIR") or os.path.join(CACHE, "target")
+    with open(tdir.rstrip("/") + ".lock", "w") as lk:
         fcntl.flock(lk, fcntl.LOCK_EX)
         if not os.path.exists(out):
             tmp = out + ".tmp.%d" % os.getpid()
             r = subprocess.run([os.path.join(VERIF, "bin", "extract.sh"), repo, tmp,
-                                os.path.join(CACHE, "target")],
+                                tdir],
                                stdout=subprocess.PIPE, stderr=subprocess.STDOUT, text=True)
             if r.returncode != 0 or not os.path.exists(tmp):
                 sys.stdout.write(r.stdout)
